@@ -332,3 +332,11 @@ def c10f(ctx):
 def run(ctx):
     for c, f in (("C10.a", c10a), ("C10.b", c10b), ("C10.c", c10c), ("C10.d", c10d), ("C10.e", c10e), ("C10.f", c10f)):
         ctx.run_clause(c, f)
+    # "reaches the backing store exactly once": the last hop is the backend's WriteBatch::commit - exactly one store write on
+    # every path, outside any loop (C08.d's rule, with its WAL/atomic-flush pairing C08.e), evaluated here as C10.g
+    if ctx.key_prefix:
+        return          # c08d already looks at both backend shapes itself; nothing to repeat on the workspace pass
+    from . import C08
+    ctx.alias = {"C08.d": "C10.g", "C08.e": "C10.g"}
+    ctx.run_clause("C10.g", C08.c08d)
+    ctx.alias = {}
